@@ -11,6 +11,7 @@ import (
 	"io"
 	"os"
 	"path/filepath"
+	"sort"
 	"strconv"
 	"strings"
 	"sync"
@@ -218,29 +219,53 @@ func runArchiveScenario(seed uint64, size int, t *Trace) error {
 		t.Count(fmt.Sprintf("archive.injections:%d", len(where)))
 		t.Line("c14.archive inject=%s => %s", strings.Join(where, ","), obs)
 	}
-	// rate limit: bursts of concurrent requests, judged on the limiter's own admission times
+	// rate limit: paced and bursty request patterns, judged on the limiter's own admission times
+	// (collected after every request, because the limiter forgets old admissions)
 	c := server.VerifConsts()
-	var wg sync.WaitGroup
-	var mu sync.Mutex
+	rate := time.Duration(c.ApiArchiveRate)
+	seen := map[int64]bool{}
+	var adm []time.Time
 	okCount := 0
-	for k := 0; k < 24; k++ {
-		wg.Add(1)
-		go func(k int) {
-			defer wg.Done()
-			time.Sleep(time.Duration(k%4) * 15 * time.Millisecond)
-			if st, _, err := e.Get("/api/v1/archive"); err == nil && st == 200 {
-				mu.Lock()
-				okCount++
-				mu.Unlock()
+	var mu sync.Mutex
+	collect := func() {
+		mu.Lock()
+		for _, u := range e.S.ApiArchiveRateLimiter.VerifAdmitted() {
+			if !seen[u.UnixNano()] {
+				seen[u.UnixNano()] = true
+				adm = append(adm, u)
 			}
-		}(k)
+		}
+		mu.Unlock()
 	}
-	wg.Wait()
-	adm := e.S.ApiArchiveRateLimiter.VerifAdmitted()
+	get := func() {
+		if st, _, err := e.Get("/api/v1/archive"); err == nil && st == 200 {
+			mu.Lock()
+			okCount++
+			mu.Unlock()
+		}
+		collect()
+	}
+	for rep := 0; rep < 3; rep++ {
+		time.Sleep(rate + 10*time.Millisecond)
+		t0 := time.Now()
+		get() // one early admission
+		time.Sleep(time.Until(t0.Add(rate * 7 / 10)))
+		for k := 0; k < c.ApiArchiveLimit-1; k++ {
+			get() // fill the window late
+		}
+		time.Sleep(time.Until(t0.Add(rate + 2*time.Millisecond)))
+		var wg sync.WaitGroup
+		for k := 0; k < c.ApiArchiveLimit+1; k++ { // burst right after the first admission expired
+			wg.Add(1)
+			go func() { defer wg.Done(); get() }()
+		}
+		wg.Wait()
+	}
+	sort.Slice(adm, func(i, j int) bool { return adm[i].Before(adm[j]) })
 	worst := 0
 	for i := range adm {
 		n := 0
-		for j := i; j >= 0 && adm[j].After(adm[i].Add(-time.Duration(c.ApiArchiveRate))); j-- {
+		for j := i; j >= 0 && adm[j].After(adm[i].Add(-rate)); j-- {
 			n++
 		}
 		if n > worst {
@@ -249,7 +274,7 @@ func runArchiveScenario(seed uint64, size int, t *Trace) error {
 	}
 	obs := "ok"
 	if worst > c.ApiArchiveLimit {
-		obs = fmt.Sprintf("VIOLATION:%d archives admitted within one window of %v (limit %d)", worst, time.Duration(c.ApiArchiveRate), c.ApiArchiveLimit)
+		obs = fmt.Sprintf("VIOLATION:%d archives admitted within one window of %v (limit %d)", worst, rate, c.ApiArchiveLimit)
 	}
 	t.Count("archive.rate")
 	t.Line("c14.rate served=%d => %s", okCount, obs)
